@@ -4,7 +4,7 @@ import Cpppo.Proofs.Bundle
 import Cpppo.Proofs.Wf
 import Cpppo.Props.C03
 import Cpppo.Props.C07
-import Cpppo.Model.Client
+import Cpppo.Model.IopClient
 /-! Small lemmas that glue the layers together for `Props/C14.lean`. -/
 namespace Cpppo.Interop
 open Cpppo Cpppo.Logix Cpppo.Fields
